@@ -6,6 +6,7 @@ import Vata.BddIsect
 import Vata.BddAbsTD
 import Vata.BddTrimCoded
 import Vata.BddTrimCodedBU
+import Vata.InclDownTables
 import Vata.Proofs.BddTrimCodedBU5
 import Vata.Proofs.BddAbsTD
 import Driver.BddShareChk
@@ -59,8 +60,20 @@ def checkIncl (args res : List String) : Except String (List String × String) :
         if bchar b != c then f := f ++ [s!"mismatch {name}-model verdict {bchar b} implementation {c}"]
         if b != exp then throw s!"internal: certifying {name} model contradicts the reference"
       | none => f := f ++ [s!"mismatch {name}-model returned none (fuel / certificate)"]
+  -- the recursive downward algorithm over top-down TABLES through the MTBDD traversal as coded (`Vata/InclDownTables.lean`:
+  -- `ForeachDownSymbolFromStateAndStateSetDo` as `VoidApply2` with its node-pair cache, the callback per pair of leaves;
+  -- `C07_traverse_downward_algorithm`, `C07_td_downward_tables_exact`): its verdict on the loaded sanitised operands must be the library's
+  let mut trav := "-"
+  if A.states.length + B.states.length ≤ 6 && A.rules.eraseDups.length + B.rules.eraseDups.length ≤ 12 && v.toList[0]! != 'T' then
+    let A' := removeUseless A
+    let B' := removeUseless B
+    match Vata.InclDownTables.inclDownTrav Vata.InclDown.idOrd (Vata.BddAbsTD.ofRulesTD A'.rules) A'.final (Vata.BddAbsTD.ofRulesTD B'.rules) B'.final [] 100000 with
+    | some b =>
+      trav := "1"
+      if bchar b != v.toList[0]! then f := f ++ [s!"mismatch td down-rec traversal model on tables: verdict {bchar b} implementation {v.toList[0]!}"]
+    | none => trav := "0"
   let eA ← getE (emptyM A FUEL) "fuel"
-  pure (f, s!"incl={bchar exp} emptyA={bchar eA} overrun={over}")
+  pure (f, s!"incl={bchar exp} emptyA={bchar eA} overrun={over} travmodel={trav}")
 
 /-- implemented option words (regenerated table: see `Vata/Generated/Tables.lean` when present) -/
 def implTD : List Nat := Vata.Gen.tdDispatch.map (·.word)
